@@ -306,3 +306,192 @@ def replay_safe(rec, verbose=True):
     if verbose:
         print("inputs", rec["inputs"], "->", got)
     return not (got[0] == "ok" or (got[0] == "exc" and got[1] in ALLOWED_RUNTIME))
+
+
+# ---------------------------------------------------------------------------------------------
+# C17: a stored IR module reloads to the same program (writer = real nslc.py, reader = other process)
+# ---------------------------------------------------------------------------------------------
+_STORE = {"dir": None, "batch": [], "n": 0}
+
+
+def _store_dir():
+    import tempfile
+    if _STORE["dir"] is None:
+        _STORE["dir"] = tempfile.mkdtemp(prefix="nslmc-c17-")
+    return _STORE["dir"]
+
+
+def run_nslc(argv, cwd):
+    """Run the snapshot's nslc.py in this process exactly as its command line would (runpy, patched argv).
+    -> (exit code, object handed to pickle.dump or None)"""
+    import gc
+    import os
+    import pickle
+    import runpy
+    import sys
+    from . import pool, snapshot
+
+    captured = []
+    orig_dump = pickle.dump
+
+    def dump(obj, f, *a, **k):
+        captured.append(obj)
+        return orig_dump(obj, f, *a, **k)
+
+    old_argv, old_cwd = sys.argv, os.getcwd()
+    pickle.dump = dump
+    code = None
+    try:
+        os.chdir(cwd)
+        sys.argv = ["nslc.py"] + list(argv)
+        try:
+            with pool.quiet():
+                runpy.run_path(os.path.join(snapshot.root(), "nslc.py"), run_name="__main__")
+            code = 0
+        except SystemExit as e:
+            code = e.code if isinstance(e.code, int) else (0 if e.code is None else 1)
+        except BaseException as e:
+            code = f"{type(e).__name__}"
+    finally:
+        pickle.dump = orig_dump
+        sys.argv = old_argv
+        os.chdir(old_cwd)
+        gc.collect()
+    return code, (captured[0] if captured else None)
+
+
+def _jsonable(v):
+    if isinstance(v, (list, tuple)):
+        return [_jsonable(x) for x in v]
+    if isinstance(v, dict):
+        return {str(k): _jsonable(x) for k, x in v.items()}
+    if isinstance(v, (int, float, str, bool)) or v is None:
+        return v
+    return repr(v)
+
+
+def behaviour(module, units):
+    """Listing + VM results of a module on the case's inputs (JSON-able)."""
+    from .engine import vm_outcome
+    from .nslapi import link, listing
+
+    out = {"listing": listing(module), "metadata_functions": sorted(str(f) for f in module.Metadata.get("functions", [])), "runs": []}
+    try:
+        program = link(module)
+    except BaseException as e:
+        out["link"] = type(e).__name__
+        return out
+    for u in units:
+        for args, globs in u["inputs"]:
+            r = vm_outcome(program, u["entry"], args, globs)
+            out["runs"].append(_jsonable(list(r)))
+    return out
+
+
+def store(prop, case, agg, units=None):
+    import json
+    import os
+    from . import lang
+    from .engine import case_prog
+    from .nslapi import compile_src
+
+    units = case["units"] if units is None else units
+    src = case["src"] if "src" in case else lang.render(case_prog(case, units), case.get("mode", "min"))
+    d = _store_dir()
+    for opt in (0, 1):
+        _STORE["n"] += 1
+        stem = f"p{_STORE['n']}"
+        with open(os.path.join(d, stem + ".nsl"), "w") as f:
+            f.write(src)
+        code, mod = run_nslc([stem + ".nsl", "-o", stem + ".nslir", "-O", str(opt)], d)
+        agg.evals += 1
+        if code != 0 or mod is None:
+            agg.stats[f"nslc-exit-{code}"] += 1
+            # cross-check the front end's decision through the API: nslc must not fail on a program Compile accepts
+            res = compile_src(src, {"optimize": bool(opt)})
+            if res.ok:
+                agg.fail({"key": f"{prop}|{case['fam']}|nslc-fails-on-accepted-program|exit={code}|opt={opt}", "source": src, "options": {"optimize": bool(opt)},
+                          "expected": "nslc.py writes the module", "observed": f"exit {code}"})
+            for fn in (stem + ".nsl", stem + ".nslir"):
+                try:
+                    os.unlink(os.path.join(d, fn))
+                except OSError:
+                    pass
+            continue
+        agg.nontrivial += 1
+        want = behaviour(mod, units)
+        # same-process reload
+        try:
+            from nsl import LinearIR
+            cwd = os.getcwd()
+            os.chdir(d)
+            try:
+                loaded = LinearIR.FilesystemModuleLoader().Load(stem)     # found by name, as an import would
+            finally:
+                os.chdir(cwd)
+            got = behaviour(loaded, units)
+        except BaseException as e:
+            got = {"load": type(e).__name__ + ": " + str(e)[:100]}
+        if got != want:
+            what = next((k for k in ("load", "link", "listing", "metadata_functions", "runs") if got.get(k) != want.get(k)), "?")
+            agg.fail({"key": f"{prop}|{case['fam']}|same-process-reload-differs|{what}|opt={opt}", "source": src, "options": {"optimize": bool(opt)},
+                      "expected": str(want.get(what))[:300], "observed": str(got.get(what))[:300]})
+        _STORE["batch"].append({"stem": stem, "fam": case["fam"], "opt": opt, "want": want, "source": src,
+                                "units": [{"entry": u["entry"], "inputs": _jsonable(u["inputs"])} for u in units]})
+    if len(agg.samples) < 2:
+        agg.samples.append({"source": src[:400], "command": "nslc.py pN.nsl -o pN.nslir -O 0|1"})
+    if len(_STORE["batch"]) >= 400:
+        store_finish(prop, agg)
+
+
+def store_finish(prop, agg):
+    """Reload the whole batch in another interpreter process started with a different hash seed."""
+    import json
+    import os
+    import shutil
+    import subprocess
+    import sys
+    from . import snapshot
+
+    d = _STORE["dir"]
+    if d is None:
+        return
+    batch = _STORE["batch"]
+    if batch:
+        with open(os.path.join(d, "batch.json"), "w") as f:
+            json.dump(batch, f)
+        env = dict(os.environ)
+        env["PYTHONHASHSEED"] = str(1 + (os.getpid() % 1000))
+        env["PYTHONPATH"] = os.path.dirname(os.path.dirname(os.path.abspath(__file__)))
+        r = subprocess.run([sys.executable, "-m", "nslmc.reader", snapshot.root(), d], env=env, stdout=subprocess.PIPE, stderr=subprocess.PIPE, timeout=1800)
+        try:
+            out = json.load(open(os.path.join(d, "reader_out.json")))
+        except Exception:
+            out = None
+        if out is None:
+            agg.fail({"key": f"{prop}|reader|reader-process-failed", "expected": "reader process completes", "observed": r.stderr.decode()[-400:]})
+        else:
+            agg.stats["reloaded-in-other-process"] += out["checked"]
+            for f in out["failures"]:
+                agg.fail({"key": f"{prop}|{f['fam']}|other-process-reload-differs|{f['what']}|opt={f['opt']}", "source": f["source"], "options": {"optimize": bool(f["opt"])},
+                          "units": f["units"], "expected": f["expected"], "observed": f["observed"]})
+    shutil.rmtree(d, ignore_errors=True)
+    _STORE["dir"] = None
+    _STORE["batch"] = []
+
+
+def replay_store(rec, verbose=True):
+    import os
+    import shutil
+    from .engine import Agg
+
+    agg = Agg()
+    case = {"fam": "replay", "desc": "replay", "src": rec["source"], "units": [{"funcs": [], "entry": u["entry"], "inputs": [tuple(i) for i in u["inputs"]]} for u in rec.get("units", [])] or
+            [{"funcs": [], "entry": "f", "inputs": []}]}
+    store("C17", case, agg)
+    store_finish("C17", agg)
+    if verbose:
+        print(rec["source"])
+        for f in agg.fails:
+            print("FAIL", f["key"], f.get("expected"), f.get("observed"))
+    return bool(agg.fails)
